@@ -2,6 +2,7 @@ package main
 
 import (
 	"context"
+	"io"
 	"os"
 	"path/filepath"
 
@@ -9,7 +10,19 @@ import (
 	carv2 "github.com/ipld/go-car/v2"
 	"github.com/ipld/go-car/v2/storage"
 	"github.com/ipld/go-car/v2/storage/deferred"
+	"github.com/ipld/go-ipld-prime/linking"
+	cidlink "github.com/ipld/go-ipld-prime/linking/cid"
+
 )
+
+// an open writer + committer obtained from DeferredCarWriter.BlockWriteOpener(); buf mirrors what was
+// written so that the direct writer can be fed the same block when the commit performs its Put
+type openerHandle struct {
+	w      io.Writer
+	commit linking.BlockWriteCommitter
+	buf    []byte
+	used   bool
+}
 
 // kind "deferred": histories on a deferred.DeferredCarWriter (wire format: coq/theories/RunMap.v).
 // target 0 = NewDeferredCarWriterForPath, 1 = NewDeferredCarWriterForStream.  Next to it runs a DIRECT
@@ -84,6 +97,7 @@ func runDeferredImpl(work string, target uint64, v1Given bool, o wOpts, roots []
 		dopts = append([]carv2.Option{carv2.WriteAsCarV1(true)}, opts...)
 	}
 	var direct *directWriter
+	handles := map[uint64]*openerHandle{}
 	closed := false
 	var log VL
 	obs := VL{}
@@ -104,9 +118,37 @@ func runDeferredImpl(work string, target uint64, v1Given bool, o wOpts, roots []
 			} else {
 				out = VL{VT("bool"), vbool(has)}
 			}
-		case "put":
-			key, data := string([]byte(op[1].(VB))), []byte(op[2].(VB))
-			out = outOf(dcw.Put(ctx, key, data))
+		case "open":
+			w, commit, err := dcw.BlockWriteOpener()(linking.LinkContext{Ctx: ctx})
+			if err == nil {
+				handles[uint64(op[1].(VN))] = &openerHandle{w: w, commit: commit}
+			}
+			out = outOf(err)
+		case "write":
+			h := handles[uint64(op[1].(VN))]
+			data := []byte(op[2].(VB))
+			_, err := h.w.Write(data)
+			h.buf = append(h.buf, data...)
+			out = outOf(err)
+		case "put", "commit":
+			var key string
+			var data []byte
+			if tag == "put" {
+				key, data = string([]byte(op[1].(VB))), []byte(op[2].(VB))
+				out = outOf(dcw.Put(ctx, key, data))
+			} else {
+				h := handles[uint64(op[1].(VN))]
+				_, c, err := cid.CidFromBytes([]byte(op[2].(VB)))
+				if err != nil {
+					panic(err)
+				}
+				key, data = string(c.Bytes()), append([]byte(nil), h.buf...)
+				out = outOf(h.commit(cidlink.Link{Cid: c}))
+				if h.used {
+					break // a used committer performs no Put
+				}
+				h.used = true
+			}
 			if !closed {
 				if direct == nil {
 					d := &directWriter{target: target, path: dpath, buf: &faultStream{faults: append([]int(nil), faults...)}}
